@@ -7,8 +7,9 @@
 (* The driver is not derived from the specification.  It works in batches:  *)
 (* up to four requests / indications / peer datagrams of different 5-tuples *)
 (* are put on the wire back to back, so that the listener goroutines (IPv4, *)
-(* IPv6), the relay-socket readers of the allocations involved and the      *)
-(* server's tables run concurrently; when everything has settled it records *)
+(* IPv6), the connection goroutines of the stream clients s1 and s2 (which  *)
+(* share one allocation manager), the relay-socket readers of the           *)
+(* allocations involved and the server's tables run concurrently; when everything has settled it records *)
 (* what every operation got back (its own response, the datagrams that      *)
 (* carried its payload) and the projected tables.  It does not know in      *)
 (* which order the server took the operations.                              *)
@@ -25,6 +26,7 @@
 EXTENDS TurnServer, Json
 
 CONSTANT TraceFile,
+         RelaxFrom, \* Relax applies from this line on only (the prefix of the execution is replayed as it is)
          Relax      \* {} when validating.  After a rejection the driver asks again with one class of observation
                     \* ignored ("topeer", "toclient", "resp:<Method>", "state:alloc" / "state:perm" / "state:chan"):
                     \* the classes whose omission makes the execution acceptable name what was wrong
@@ -69,6 +71,7 @@ Act(a) ==
     [] a.a = "SendInd"          -> SendInd(a.c, Peer(a.p), a.pay, -1)
     [] a.a = "ChanData"         -> ChanData(a.c, a.n, a.pay, -1)
     [] a.a = "PeerData"         -> PeerData(a.c, Peer(a.p), a.pay, -1)
+    [] a.a = "ConnClose"        -> ConnClose(a.c)
 
 (* what the specification's step puts out against what the operation observed: pinned fields only *)
 MatchOne(s, o) ==
@@ -84,7 +87,8 @@ MatchOne(s, o) ==
                \/ (o.via = "ind" /\ s.peer = Peer(o.peer))     \* the true source named: always acceptable
        [] OTHER -> FALSE
 ObsSet(op) == {op.obs[i] : i \in 1..Len(op.obs)}
-Keep(o) == o.k \notin Relax /\ ~(o.k = "resp" /\ ("resp:" \o o.m) \in Relax)
+RelaxNow == IF l >= RelaxFrom THEN Relax ELSE {}
+Keep(o) == o.k \notin RelaxNow /\ ~(o.k = "resp" /\ ("resp:" \o o.m) \in RelaxNow)
 Match(S0, O0) ==
   LET S  == {s \in S0 : Keep(s)}
       O  == {o \in O0 : Keep(o)}
@@ -101,13 +105,15 @@ Fire == /\ AtLine("Settle") /\ adv = 0
         /\ UNCHANGED <<l, adv>>
 
 SeqSet(s) == {s[i] : i \in 1..Len(s)}
+\* (a Settle line lists the clients whose tables the driver projected: all of them after a concurrent round,
+\* only its own after an operation of a client's private history in the real-time driver)
 StateOK(L) ==
-  \A c \in Clients :
-    /\ "state:alloc" \in Relax \/
+  \A c \in Clients \cap DOMAIN L.alloc :
+    /\ "state:alloc" \in RelaxNow \/
          /\ L.alloc[c].live = alloc[c].live
          /\ alloc[c].live => (L.alloc[c].user = alloc[c].user /\ L.alloc[c].fam = alloc[c].fam)
-    /\ "state:perm" \in Relax \/ SeqSet(L.perm[c]) = {i \in PeerIPs : perm[c][i] > 0}
-    /\ "state:chan" \in Relax \/
+    /\ "state:perm" \in RelaxNow \/ SeqSet(L.perm[c]) = {i \in PeerIPs : perm[c][i] > 0}
+    /\ "state:chan" \in RelaxNow \/
          {<<x[1], <<x[2], x[3]>>>> : x \in SeqSet(L.chan[c])}
            = {<<n, chan[c][n].peer>> : n \in {m \in ChanNums : chan[c][m].bound}}
 
@@ -134,6 +140,9 @@ C04_IsolationT ==
             alloc'[d] = alloc[d] /\ perm'[d] = perm[d] /\ chan'[d] = chan[d] /\ resv'[d] = resv[d]
        /\ \A o \in out' : (o.k \in {"resp", "toclient"} => o.to \in Actor)
                        /\ (o.k = "topeer" => o.from \in Actor)]_vars
+\* attribution runs only ask "is there ONE linearisation that reaches the end": a depth-first search that stops there
+\* (TLC reports this invariant as violated: that is the positive answer)
+NotDone == l <= Len(Tr)
 Progress == TLCSet(1, IF l > TLCGet(1) THEN l ELSE TLCGet(1))
 ASSUME TLCSet(1, 0)
 Accepted ==
